@@ -19,6 +19,13 @@
   * `validHost_of_labels`, `validHost_too_long`, `validHost_non_ascii`, `sni_outright`
                               is_valid_host transcribed (idna fast path, 255 rule, trailing dot, split, label regex): SNI of
                               LDH/underscore names is reported outright, independent of the idna/ipaddress library answers
+  * `validHostT_closed_form`, `validHostT_lib_free`, `sni_lib_free`
+                              with `ipaddress.ip_address` = C22.parseIp inside the model, is_valid_host of a name without `xn--` is a
+                              closed expression; SNI of any parsed hello without `xn--` candidates needs no library answer
+  * `toUnicode_congr`, `decodeIdna_congr`, `validHostN_congr`, `validHostN_lib_free`, `toUnicode_roundtrip`,
+    `validHost_alabel_example`  the idna codec (punycode, ToASCII/ToUnicode, Codec.decode) inside the model: nameprep is the only
+                              parameter left and is asked only about the punycode-decoded `xn--` labels; an IDN name is valid outright
+                              given one nameprep fact
   * `record_any_size_accepted`, `record_header_prefix_incomplete`
                               records of every length 1…65535 are read (no 2^14 bound in the code; examples at 16384, 16385, 65535);
                               a header announcing any such length with too few bytes after it is incomplete, never invalid
@@ -27,8 +34,9 @@
                               is FALSE for the current code (finding F-C13a); proved for unfragmented flights only.
 -/
 import MitmVerif.Model.C13
+import MitmVerif.Model.C13_Idna
 namespace MitmVerif.Props.C13
-open MitmVerif MitmVerif.C13 MitmVerif.C13.Build
+open MitmVerif MitmVerif.C13 MitmVerif.C13.Build MitmVerif.C13.Idna
 
 private theorem getD_append_left (l q : Bytes) (i : Nat) (h : i < l.length) :
     (l ++ q).getD i 0 = l.getD i 0 := by
@@ -1039,6 +1047,228 @@ example : validHost ⟨fun _ => true, fun _ => true⟩ [0x61, 0x20, 0x62] = true
     validHost ⟨fun _ => true, fun _ => false⟩ [0x61, 0x20, 0x62] = false ∧
     validHost ⟨fun _ => false, fun _ => false⟩ [0x61, 0x0a] = true ∧
     validHost ⟨fun _ => false, fun _ => true⟩ [0x78, 0x6e, 0x2d, 0x2d, 0x61] = false := by decide
+
+
+
+/-! ## ipaddress inside the model: names without `xn--` need no library at all -/
+
+private theorem isInfix_append (p x y : Bytes) (hp : p ≠ []) (h : isInfix p x = true) :
+    isInfix p (x ++ y) = true := by
+  induction x with
+  | nil => cases p with
+    | nil => exact absurd rfl hp
+    | cons _ _ => simp [isInfix] at h
+  | cons b r ih =>
+    simp only [isInfix, Bool.or_eq_true] at h
+    simp only [List.cons_append, isInfix, Bool.or_eq_true]
+    rcases h with h | h
+    · left
+      rw [List.isPrefixOf_iff_prefix] at h ⊢
+      exact h.trans (List.prefix_append (b :: r) y)
+    · right; exact ih h
+
+private theorem isInfix_dropLast (p d : Bytes) (hp : p ≠ []) (h : isInfix p d = false) :
+    isInfix p d.dropLast = false := by
+  cases hd : isInfix p d.dropLast with
+  | false => rfl
+  | true =>
+    by_cases hne : d = []
+    · subst hne; simp at hd; rw [hd] at h; cases h
+    · have hdx := List.dropLast_concat_getLast hne
+      have := isInfix_append p d.dropLast [d.getLast hne] hp hd
+      rw [hdx, h] at this; cases this
+
+private theorem isInfix_stripDot (d : Bytes) (h : isInfix acePrefix d = false) :
+    isInfix acePrefix (stripDot d) = false := by
+  unfold stripDot
+  split
+  · exact isInfix_dropLast acePrefix d (by decide) h
+  · exact h
+
+/-- **validHostT_closed_form** — for a name without `xn--`, `is_valid_host` is this closed expression: all bytes ASCII,
+    at most 255 bytes, and (every dot-separated label of the name without one trailing dot matches the label regex, or
+    `ipaddress.ip_address` — the transcription `C22.parseIp` — accepts it). No library parameter occurs. -/
+theorem validHostT_closed_form (I : IdnaLib) (nm : Bytes) (hace : isInfix acePrefix nm = false) :
+    validHostT I nm =
+      (nm.all (fun b => decide (b.toNat < 128)) && decide (nm.length ≤ 255) &&
+        ((splitDot (stripDot nm)).all labelValid ||
+          ((stripDot nm).all (fun b => decide (b.toNat < 128)) && (C22.parseIp (stripDot nm)).isSome))) := by
+  have hs := isInfix_stripDot nm hace
+  unfold validHostT validHost idnaOk hostLibOf ipOk idnaText
+  simp only [hace, hs, Bool.false_eq_true, if_false]
+  by_cases h1 : nm.all (fun b => decide (b.toNat < 128)) = true
+  · by_cases h2 : 255 < nm.length
+    · have : decide (nm.length ≤ 255) = false := by simp; omega
+      simp [h1, h2, this]
+    · have : decide (nm.length ≤ 255) = true := by simp; omega
+      simp only [h1, h2, this, Bool.true_eq_false, if_false, Bool.true_and]
+      by_cases h3 : (splitDot (stripDot nm)).all labelValid = true
+      · simp [h3]
+      · by_cases h4 : (stripDot nm).all (fun b => decide (b.toNat < 128)) = true
+        · simp [h3, h4]
+        · simp [h3, h4]
+  · simp [h1]
+
+/-- **validHostT_lib_free** — hence for names without `xn--` the remaining library parameter is irrelevant -/
+theorem validHostT_lib_free (I J : IdnaLib) (nm : Bytes) (hace : isInfix acePrefix nm = false) :
+    validHostT I nm = validHostT J nm := by
+  rw [validHostT_closed_form I nm hace, validHostT_closed_form J nm hace]
+
+private theorem find?_congr_mem (p q : Bytes → Bool) (l : List Bytes) (h : ∀ x ∈ l, p x = q x) :
+    l.find? p = l.find? q := by
+  induction l with
+  | nil => rfl
+  | cons a r ih =>
+    simp only [List.find?_cons, h a (by simp)]
+    rw [ih (fun x hx => h x (by simp [hx]))]
+
+/-- **sni_lib_free** — `ClientHello.sni` of ANY parsed hello none of whose host_name candidates contains `xn--` does not
+    depend on any library answer: `is_valid_host` is computed entirely by the model (regex, lengths, idna fast path,
+    `ipaddress`). -/
+theorem sni_lib_free (I J : IdnaLib) (h : Hello)
+    (hc : ∀ nm ∈ h.sniCandidates, isInfix acePrefix nm = false) :
+    h.sni (validHostT I) = h.sni (validHostT J) := by
+  unfold Hello.sni
+  exact find?_congr_mem _ _ _ (fun nm hm => validHostT_lib_free I J nm (hc nm hm))
+
+/-- IP literals are valid hosts via the transcribed `ipaddress`; junk is not; a trailing dot is stripped first -/
+example : validHostT noIdna [0x3a, 0x3a, 0x31] = true ∧                                  -- "::1"
+    validHostT noIdna [0x66, 0x65, 0x38, 0x30, 0x3a, 0x3a, 0x31, 0x25, 0x65] = true ∧       -- "fe80::1%e"
+    validHostT noIdna [0x3a, 0x3a, 0x31, 0x2e] = true ∧                                    -- "::1."
+    validHostT noIdna [0x3a, 0x3a, 0x67] = false ∧                                         -- "::g"
+    validHostT noIdna [0x61, 0x20, 0x62] = false ∧                                         -- "a b"
+    validHostT noIdna [0x31, 0x2e, 0x32, 0x2e, 0x33, 0x2e, 0x34] = true := by decide      -- "1.2.3.4" (labels)
+
+
+
+/-! ## the idna codec inside the model: only `nameprep` is left, and it is asked only about decoded A-labels -/
+
+/-- **toUnicode_congr** — `ToUnicode(label)` consults nameprep on at most one value: the punycode decoding of the label -/
+theorem toUnicode_congr (N M : Nameprep) (label : List Nat)
+    (h : ∀ r, aceCps.isPrefixOf label = true → punyDecode (label.drop 4) = some r → N.prep r = M.prep r) :
+    toUnicode N label = toUnicode M label := by
+  unfold toUnicode
+  split
+  · rfl
+  · split
+    · rfl
+    · rename_i hace
+      have hace' : aceCps.isPrefixOf label = true := by simpa using hace
+      cases hp : punyDecode (label.drop 4) with
+      | none => rfl
+      | some r =>
+        have hr := h r hace' hp
+        simp only
+        unfold toAscii
+        rw [hr]
+
+private theorem mapAll_congr {α β : Type} (f g : α → Option β) (l : List α) (h : ∀ a ∈ l, f a = g a) :
+    mapAll f l = mapAll g l := by
+  induction l with
+  | nil => rfl
+  | cons a r ih =>
+    simp only [mapAll, h a (by simp), ih (fun x hx => h x (by simp [hx]))]
+
+/-- **decodeIdna_congr** — two nameprep functions that agree on the asked values give the same decoded text -/
+theorem decodeIdna_congr (N M : Nameprep) (raw : Bytes) (h : ∀ r, Asked raw r → N.prep r = M.prep r) :
+    decodeIdna N raw = decodeIdna M raw := by
+  have hl : ∀ l ∈ (splitDot raw).map (fun l => l.map UInt8.toNat), toUnicode N l = toUnicode M l := by
+    intro l hm
+    rw [List.mem_map] at hm
+    obtain ⟨b, hb, rfl⟩ := hm
+    exact toUnicode_congr N M _ (fun r ha hr => h r ⟨b, hb, ha, hr⟩)
+  have hsub : ∀ a ∈ (trimLabels ((splitDot raw).map (fun l => l.map UInt8.toNat))).1,
+      a ∈ (splitDot raw).map (fun l => l.map UInt8.toNat) := by
+    intro a ha
+    unfold trimLabels at ha
+    split at ha
+    · exact (List.dropLast_sublist _).subset ha
+    · exact ha
+  unfold decodeIdna
+  simp only
+  rw [mapAll_congr _ _ _ (fun a ha => hl a (hsub a ha))]
+
+/-- **validHostN_congr** — `is_valid_host` depends on nameprep only through the decoded A-labels of the name (and of the
+    name without its trailing dot) -/
+theorem validHostN_congr (N M : Nameprep) (nm : Bytes)
+    (h1 : ∀ r, Asked nm r → N.prep r = M.prep r) (h2 : ∀ r, Asked (stripDot nm) r → N.prep r = M.prep r) :
+    validHostN N nm = validHostN M nm := by
+  unfold validHostN validHostT validHost idnaOk hostLibOf ipOk idnaText idnaOf
+  simp only [decodeIdna_congr N M nm h1, decodeIdna_congr N M (stripDot nm) h2]
+
+/-- **validHostN_lib_free** — and not at all for names without `xn--` -/
+theorem validHostN_lib_free (N M : Nameprep) (nm : Bytes) (hace : isInfix acePrefix nm = false) :
+    validHostN N nm = validHostN M nm := validHostT_lib_free _ _ nm hace
+
+/-- **toUnicode_roundtrip** — a decoded A-label re-encodes (ToASCII) to the lower-cased label: what Python's step 7 checks -/
+theorem toUnicode_roundtrip (N : Nameprep) (label : List Nat) (r : Cps) (hace : aceCps.isPrefixOf label = true)
+    (h : toUnicode N label = some r) : toAscii N r = some (label.map lowerAscii) := by
+  unfold toUnicode at h
+  split at h
+  · cases h
+  · simp only [hace, Bool.not_true, Bool.false_eq_true, if_false] at h
+    cases hp : punyDecode (label.drop 4) with
+    | none => rw [hp] at h; cases h
+    | some res =>
+      rw [hp] at h
+      simp only at h
+      cases ha : toAscii N res with
+      | none => rw [ha] at h; cases h
+      | some l2 =>
+        rw [ha] at h
+        simp only at h
+        split at h
+        · rename_i heq
+          cases h
+          rw [ha, heq]
+        · cases h
+
+
+private def bucher : Cps := [0x62, 0xfc, 0x63, 0x68, 0x65, 0x72]                       -- "bücher"
+private def nmBucher : Bytes :=                                                        -- b"xn--bcher-kva.example"
+  [0x78, 0x6e, 0x2d, 0x2d, 0x62, 0x63, 0x68, 0x65, 0x72, 0x2d, 0x6b, 0x76, 0x61, 0x2e, 0x65, 0x78, 0x61, 0x6d, 0x70, 0x6c, 0x65]
+
+private theorem asked_bucher (r : Cps) (h : Asked nmBucher r) : r = bucher := by
+  obtain ⟨l, hl, hace, hp⟩ := h
+  have hs : splitDot nmBucher = [[0x78, 0x6e, 0x2d, 0x2d, 0x62, 0x63, 0x68, 0x65, 0x72, 0x2d, 0x6b, 0x76, 0x61],
+      [0x65, 0x78, 0x61, 0x6d, 0x70, 0x6c, 0x65]] := by decide
+  rw [hs] at hl
+  simp only [List.mem_cons, List.mem_nil_iff, or_false] at hl
+  rcases hl with rfl | rfl
+  · have : punyDecode ((([0x78, 0x6e, 0x2d, 0x2d, 0x62, 0x63, 0x68, 0x65, 0x72, 0x2d, 0x6b, 0x76, 0x61] : Bytes).map UInt8.toNat).drop 4)
+        = some bucher := by decide
+    rw [this] at hp; exact (Option.some.inj hp).symm
+  · exact absurd hace (by decide)
+
+/-- **validHost_alabel_example** — an IDN name, outright up to ONE fact about the Unicode tables:
+    `b"xn--bcher-kva.example"` is a valid host for every nameprep that leaves `"bücher"` unchanged
+    (punycode decoding, the ToASCII round trip, the label regex and the length rules are all computed by the model). -/
+theorem validHost_alabel_example (N : Nameprep) (h : N.prep bucher = some bucher) : validHostN N nmBucher = true := by
+  have hstrip : stripDot nmBucher = nmBucher := by decide
+  have hc : validHostN N nmBucher = validHostN ⟨fun _ => some bucher⟩ nmBucher :=
+    validHostN_congr N _ nmBucher (fun r hr => by rw [asked_bucher r hr]; exact h)
+      (fun r hr => by rw [hstrip] at hr; rw [asked_bucher r hr]; exact h)
+  rw [hc]; decide
+
+/-- … and its decoded text is "bücher.example"; a broken A-label is invalid whatever nameprep says -/
+example : decodeIdna ⟨fun _ => some bucher⟩ nmBucher
+    = some [0x62, 0xfc, 0x63, 0x68, 0x65, 0x72, 0x2e, 0x65, 0x78, 0x61, 0x6d, 0x70, 0x6c, 0x65] := by decide
+example (N : Nameprep) : validHostN N [0x78, 0x6e, 0x2d, 0x2d, 0x5f] = false := by                      -- b"xn--_"
+  have : validHostN N [0x78, 0x6e, 0x2d, 0x2d, 0x5f] = validHostN ⟨fun _ => none⟩ [0x78, 0x6e, 0x2d, 0x2d, 0x5f] := by
+    apply validHostN_congr
+    all_goals
+      intro r hr
+      obtain ⟨l, hl, _, hp⟩ := hr
+      have hl' : l = [0x78, 0x6e, 0x2d, 0x2d, 0x5f] := by
+        first
+          | (have hs : splitDot [0x78, 0x6e, 0x2d, 0x2d, 0x5f] = [[0x78, 0x6e, 0x2d, 0x2d, 0x5f]] := by decide
+             rw [hs] at hl; simpa using hl)
+          | (have hs : splitDot (stripDot [0x78, 0x6e, 0x2d, 0x2d, 0x5f]) = [[0x78, 0x6e, 0x2d, 0x2d, 0x5f]] := by decide
+             rw [hs] at hl; simpa using hl)
+      subst hl'
+      have hd : punyDecode (List.drop 4 (List.map UInt8.toNat [0x78, 0x6e, 0x2d, 0x2d, 0x5f])) = none := by decide
+      rw [hd] at hp; cases hp
+  rw [this]; decide
 
 
 /-! ## record sizes: the code has NO bound below the length field's own maximum -/
